@@ -55,7 +55,11 @@ public:
     inline void finalizeBacktracking() {
         assert(model->changed_vars_vec.size() == 0);
         candidates.clear();
-        bufferOfActivatedBounds.clear();
+        // Bounds activated since the last successful check that are still asserted after the backtracking
+        // have not been taken into account in the (restored) assignment yet; keep them for the next check
+        std::erase_if(bufferOfActivatedBounds, [this](std::pair<LVRef, LABoundRef> const & entry) {
+            return not model->isBoundAsserted(entry.first, entry.second);
+        });
         assert(checkValueConsistency());
         assert(invariantHolds());
     }
